@@ -1,5 +1,6 @@
 // C02 — igris::vector (vector.h), flat_map, flat_set against std::vector / std::map / std::set.
 #include "c02_flat.hpp"
+#include "c02_stdref.hpp"
 #include "c02_vector.hpp"
 #include <igris/container/flat_map.h>
 #include <igris/container/flat_set.h>
@@ -16,40 +17,27 @@ namespace
         static constexpr bool has_at = true, has_less = true, has_sorted = true, has_il = true, has_list_range = true, has_erase_range = true;
     };
 
-    struct StdMapRef
+    using c02::HalfLess;
+    template <class Cmp> void register_flat(const std::string &suffix)
     {
-        std::map<int, int> m;
-        void set(int k, int v) { m[k] = v; }
-        void index(int k) { (void)m[k]; }
-        void insert(int k, int v) { m.insert({k, v}); }
-        void clear() { m.clear(); }
-        bool agrees(const c02::RefMap &r) const
-        {
-            return std::vector<std::pair<int, int>>(m.begin(), m.end()) == r.kv;
-        }
-    };
-    struct StdSetRef
-    {
-        std::set<int> s;
-        void insert(int k) { s.insert(k); }
-        void clear() { s.clear(); }
-        bool agrees(const std::vector<int> &r) const { return std::vector<int>(s.begin(), s.end()) == r; }
-    };
+        using Map = igris::flat_map<int, int, Cmp>;
+        using Set = igris::flat_set<int, Cmp>;
+        std::string mn = "flat_map" + suffix, sn = "flat_set" + suffix;
+        // one map (copy/move as round trips through a temporary), long initializer lists
+        mc::add_bfs(mn, [mn] { return std::unique_ptr<mc::Model>(new c02::MapModel<Map, c02::StdMapRefT<Cmp>, Cmp>(mn, mc::thorough() ? 3 : 2, 3, true)); });
+        mc::add_bfs(sn, [sn] { return std::unique_ptr<mc::Model>(new c02::SetModel<Set, c02::StdSetRefT<Cmp>, true, Cmp>(sn, mc::thorough() ? 4 : 3)); });
+    }
 }
 
 MC_INIT
 {
     c02::register_vectors<VecTraits>();
-    // one map (copy/move as round trips through a temporary), long initializer lists
-    mc::add_bfs("flat_map", [] {
-        return std::unique_ptr<mc::Model>(new c02::MapModel<igris::flat_map<int, int>, StdMapRef>("flat_map", mc::thorough() ? 3 : 2, 3, true));
-    });
+    register_flat<std::less<int>>("");
+    register_flat<std::greater<int>>("_greater");
+    register_flat<HalfLess>("_half_less");
     // two maps A, B with copy/move between them
 #if TIER_THOROUGH // the tier is not known yet when the registration code runs: build.sh passes it
-    mc::add_bfs("flat_map_pair", [] { return std::unique_ptr<mc::Model>(new c02::MapModel<igris::flat_map<int, int>, StdMapRef>("flat_map", 2, 2, false)); });
+    mc::add_bfs("flat_map_pair", [] { return std::unique_ptr<mc::Model>(new c02::MapModel<igris::flat_map<int, int>, c02::StdMapRefT<>>("flat_map", 2, 2, false)); });
 #endif
-    mc::add_bfs("flat_set", [] {
-        return std::unique_ptr<mc::Model>(new c02::SetModel<igris::flat_set<int>, StdSetRef, true>("flat_set", mc::thorough() ? 4 : 3));
-    });
 }
 MC_MAIN
